@@ -2,6 +2,7 @@
 # tools/with_patch.sh [-R] <patch|commit> -- <command...>
 # Runs <command> with VERIF_REPO pointing to a scratch copy of /repo's tracked files with the patch
 # (or the reverse of it with -R; a commit id means that commit's diff) applied. Scratch is removed afterwards.
+HERE="$(dirname "$(readlink -f "$0")")"
 REV=""
 if [ "$1" = "-R" ]; then REV="-R"; shift; fi
 P="$1"; case "$P" in /*) ;; *) [ -f "$P" ] && P="$(pwd)/$P";; esac; shift; shift
@@ -10,7 +11,7 @@ mkdir -p "$S" && git -C /repo archive HEAD include tests | tar -x -C "$S"
 cd "$S" && git init -q . >/dev/null 2>&1
 if [ -f "$P" ]; then git apply $REV "$P" || { echo "patch failed"; rm -rf "$S"; exit 3; }
 else git -C /repo show "$P" | git apply $REV || { echo "patch failed"; rm -rf "$S"; exit 3; }; fi
-cd /verif && VERIF_REPO="$S" VERIF_OUT="$S/vout" "$@"
+cd "$HERE/.." && VERIF_REPO="$S" VERIF_OUT="$S/vout" "$@"
 rc=$?
 rm -rf "$S"
 exit $rc
